@@ -7,10 +7,10 @@ SRC=${SEED_ROOT:-/tmp/sa/out}/$P/$X
 WT=/tmp/confirm_$P$X
 OUT=/verif/seeded/$P$X
 exec >/tmp/confirm_$P$X.log 2>&1
-git -C /repo worktree remove --force $WT 2>/dev/null
-git -C /repo worktree add -q --detach $WT HEAD || exit 2
+flock /tmp/gitwt.lock git -C /repo worktree remove --force $WT 2>/dev/null
+flock /tmp/gitwt.lock git -C /repo worktree add -q --detach $WT HEAD || exit 2
 cd $WT
-trap 'cd /; git -C /repo worktree remove --force $WT' EXIT
+trap 'cd /; flock /tmp/gitwt.lock git -C /repo worktree remove --force $WT' EXIT
 meson setup _build >/dev/null 2>&1 && ninja -C _build >/dev/null 2>&1 || { echo "RESULT $P$X: baseline build failed"; exit 1; }
 meson setup _build_tsan -Db_sanitize=thread -Db_lundef=false -Dtests=disabled -Dgtk=disabled -Dopenmp=disabled >/dev/null 2>&1 && ninja -C _build_tsan >/dev/null 2>&1 || { echo "RESULT $P$X: tsan build failed"; exit 1; }
 bd() { gcc -fsanitize=thread -O1 -g -pthread $SRC/demo.c -I$WT/pixman -I$WT/_build_tsan/pixman -L$WT/_build_tsan/pixman -lpixman-1 -lm -o demo_bin; }
